@@ -66,6 +66,8 @@ SENT_LINES = [SENTINEL + "\n", SENTINEL + " and more\n", SENTINEL + "\r\n",
 FILE_ID = "file-id"
 DIR_ID = "dir-id"
 EXTRA_ID = "extra-id"
+EXTRA_IDS = ["xa-id", "xb-id", "xc-id", "xd-id", "xe-id", "xf-id", "xg-id",
+             "xh-id"]
 NAMES = ["f", "f", "f", "a b", "\xe4", "x.BASE", "-dash"]
 
 
@@ -106,11 +108,41 @@ def reference(base, this, other, reprocess, show_base, cherrypick):
 
 # ------------------------------------------------------------------ set-up
 
+EXTRA_TEXTS = {"base": "e1\ne2\ne3\ne4\ne5\n", "this": "E1\ne2\ne3\ne4\ne5\n",
+               "other": "e1\ne2\ne3\ne4\nE5\n",
+               "merged": "E1\ne2\ne3\ne4\nE5\n"}
+
+
+def extra_mode(case):
+    """None | 'other-only' | 'clean-after' | 'clean-before' (a second file;
+    the last two are changed on both sides and merge cleanly, processed
+    after / before the main file)."""
+    e = case.get("extra")
+    if e is True:
+        return "other-only"
+    return e or None
+
+
+def extra_name(case):
+    return "0extra" if extra_mode(case) == "clean-before" else "zextra"
+
+
+def extra_id(case):
+    # entries are merged in the order of the inventory's hash-keyed map, so
+    # which of the two files comes first depends on the id: the generator
+    # draws it ("extra_id") to get both orders
+    return case.get("extra_id") or "extra-id"
+
+
 def build_spec(case):
-    """history spec r0 [-> ob] -> o ; r0 -> t, all carrying FILE_ID."""
+    """history spec r0 [-> ob] -> o ; r0 -> t, all carrying FILE_ID (with
+    base_absent the file is added under the same id on both sides)."""
     place = case["place"]
     cherry = case["opts"]["cherrypick"]
     dirty = case["dirty"]
+    absent = case.get("base_absent", False)
+    em = extra_mode(case)
+    xid = extra_id(case)
     parent = tm.ROOT_ID
     ops0 = []
     if place["dir"]:
@@ -121,21 +153,35 @@ def build_spec(case):
         first = case["this"]
     else:
         first = case["base"]
-    ops0.append(["add", FILE_ID, parent, place["name"], "file", first, False])
-    if case["extra"]:
-        ops0.append(["add", EXTRA_ID, tm.ROOT_ID, "zextra", "file",
+    if not absent:
+        ops0.append(["add", FILE_ID, parent, place["name"], "file", first,
+                     False])
+    if em == "other-only":
+        ops0.append(["add", xid, tm.ROOT_ID, "zextra", "file",
                      "extra base\n", False])
+    elif em:
+        ops0.append(["add", xid, tm.ROOT_ID, extra_name(case), "file",
+                     EXTRA_TEXTS["base"], False])
     ren = ["rename", FILE_ID, parent, place["name"] + ".moved"]
-    ops_o = [["modify", FILE_ID, case["other"]]]
-    if case["rename"] == "other":
-        ops_o.append(ren)
-    if case["extra"]:
-        ops_o.append(["modify", EXTRA_ID, "extra other\n"])
-    ops_t = []
-    if not dirty:
-        ops_t.append(["modify", FILE_ID, case["this"]])
-    if case["rename"] == "this":
-        ops_t.append(ren)
+    if absent:
+        ops_o = [["add", FILE_ID, parent, place["name"], "file",
+                  case["other"], False]]
+        ops_t = [["add", FILE_ID, parent, place["name"], "file",
+                  case["this"], False]]
+    else:
+        ops_o = [["modify", FILE_ID, case["other"]]]
+        if case["rename"] == "other":
+            ops_o.append(ren)
+        ops_t = []
+        if not dirty:
+            ops_t.append(["modify", FILE_ID, case["this"]])
+        if case["rename"] == "this":
+            ops_t.append(ren)
+    if em == "other-only":
+        ops_o.append(["modify", xid, "extra other\n"])
+    elif em:
+        ops_o.append(["modify", xid, EXTRA_TEXTS["other"]])
+        ops_t.append(["modify", xid, EXTRA_TEXTS["this"]])
 
     def rev(i, rid, parents, ops):
         return {"id": rid, "parents": parents, "ghosts": [], "ops": ops,
@@ -143,7 +189,8 @@ def build_spec(case):
                 "committer": bz.COMMITTER, "props": {}}
     revs = [rev(0, "r0", [], ops0)]
     if cherry:
-        revs.append(rev(1, "ob", ["r0"], [["modify", FILE_ID, case["base"]]]))
+        revs.append(rev(1, "ob", ["r0"], [] if absent else
+                        [["modify", FILE_ID, case["base"]]]))
         revs.append(rev(2, "o", ["ob"], ops_o))
     else:
         revs.append(rev(1, "o", ["r0"], ops_o))
@@ -208,7 +255,8 @@ def run(case, env):
     opts = case["opts"]
     mt = case["mtype"]
     exact = mt == "merge3"
-    base_b = case["base"].encode("latin-1")
+    absent = case.get("base_absent", False)
+    base_b = b"" if absent else case["base"].encode("latin-1")
     this_b = case["this"].encode("latin-1")
     other_b = case["other"].encode("latin-1")
     d = env.newdir()
@@ -261,9 +309,14 @@ def run(case, env):
     expect = {}
     if case["place"]["dir"]:
         expect[case["place"]["dir"]] = None
-    if case["extra"]:
+    em = extra_mode(case)
+    if em == "other-only":
         expect["zextra"] = ("extra base\n" if case["interesting"]
                             else "extra other\n")
+    elif em:
+        # changed on both sides, merges cleanly: no conflict, no helpers
+        expect[extra_name(case)] = EXTRA_TEXTS[
+            "this" if case["interesting"] else "merged"]
     rest = {k: v for k, v in got.items()
             if k != final_path and k not in helpers.values()}
     check(rest == expect, sig("unrelated-files-differ"),
@@ -281,10 +334,17 @@ def run(case, env):
               else sig("clean-merge-bytes-differ"),
               [detail, ref_bytes.decode("latin-1")])
     if recorded:
-        check(all(present.values()), sig("helper-file-missing"),
+        need = dict(present)
+        if absent:
+            # the file does not exist in BASE: there is no BASE text; the
+            # helper may be missing or empty
+            need.pop("BASE")
+            check(got.get(helpers["BASE"], "") == "",
+                  sig("helper-BASE-wrong-text"), [detail, "BASE"])
+        check(all(need.values()), sig("helper-file-missing"),
               [detail, present])
         texts = {"THIS": this_b, "OTHER": other_b}
-        if exact:
+        if exact and not absent:
             texts["BASE"] = base_b
         for s in sorted(texts):
             check(got[helpers[s]] == texts[s].decode("latin-1"),
@@ -306,8 +366,12 @@ def run(case, env):
     # ---- resolution
     action = case["resolve"]
     res_label = "noresolve"
+    rpaths = None if case.get("resolve_all") else [final_path]
     if recorded and action in ("take_this", "take_other"):
-        _conflicts.resolve(wt, paths=[final_path], action=action)
+        if case.get("pre_remove") and helpers["BASE"] in got:
+            # the user already threw the BASE helper away
+            os.unlink(os.path.join(root, helpers["BASE"]))
+        _conflicts.resolve(wt, paths=rpaths, action=action)
         wt = bz.open_tree(root)
         after = fs_files(root)
         want = dict(expect)
@@ -326,7 +390,7 @@ def run(case, env):
                   sig("%s-unversions-file" % action), d2)
         res_label = action
     elif recorded and action == "auto":
-        _conflicts.resolve(wt, paths=[final_path], action="auto")
+        _conflicts.resolve(wt, paths=rpaths, action="auto")
         wt = bz.open_tree(root)
         after = fs_files(root)
         still = conflict_view(wt)
@@ -338,7 +402,7 @@ def run(case, env):
         # the user edits the markers away by hand (keeps THIS), then auto
         with open(os.path.join(root, final_path), "wb") as f:
             f.write(this_b)
-        _conflicts.resolve(wt, paths=[final_path], action="auto")
+        _conflicts.resolve(wt, paths=rpaths, action="auto")
         wt = bz.open_tree(root)
         after = fs_files(root)
         still = conflict_view(wt)
@@ -358,6 +422,8 @@ def run(case, env):
     optl = ("cherrypick" if opts["cherrypick"] else
             "reprocess" if opts["reprocess"] else
             "show_base" if opts["show_base"] else "plain")
+    if has and absent:
+        return ok("%s/conflict-no-base/%s" % (mt, res_label))
     if has:
         return ok("%s/conflict/%s/%s" % (mt, optl, res_label))
     if not one_sided:
@@ -425,16 +491,114 @@ def gen_case(draw, mtypes=("merge3",), sentinel=False):
         "place": place,
         "rename": draw(st.sampled_from([None, None, None, "this", "other"])),
         "dirty": (mt == "merge3" and draw(st.integers(0, 5)) == 0),
-        "extra": draw(st.integers(0, 3)) == 0,
+        "extra": draw(st.sampled_from([None, None, None, None, "other-only",
+                                       "clean-after", "clean-before"])),
+        # the file is new on both sides (same file id): no BASE text
+        "extra_id": draw(st.sampled_from(EXTRA_IDS)),
+        "base_absent": draw(st.integers(0, 7)) == 0,
+        "resolve_all": draw(st.integers(0, 3)) == 0,
+        "pre_remove": draw(st.integers(0, 4)) == 0,
         "interesting": False,
         # text of the common root revision when BASE is not that root
         "root": draw(st.sampled_from(["this", "base"])),
         "resolve": draw(st.sampled_from(["take_this", "take_other", "auto",
                                          "none"])),
     }
+    if case["base_absent"]:
+        case["rename"] = None
+        case["dirty"] = False
     if case["rename"] != "other":
         # interesting_files is given as a THIS path
         case["interesting"] = draw(st.integers(0, 5)) == 0
+    return case
+
+
+# ------------------------------------------------------------------ contents
+# conflicts (the other resolution action the property is anchored in):
+# take_this / take_other must leave exactly the chosen side and no helpers
+
+def run_contents(case, env):
+    from breezy import conflicts as _conflicts
+    from breezy import merge as _merge
+    name = case["place"]["name"]
+    parent = tm.ROOT_ID
+    ops0 = []
+    if case["place"]["dir"]:
+        ops0.append(["add", DIR_ID, tm.ROOT_ID, case["place"]["dir"],
+                     "directory", None, False])
+        parent = DIR_ID
+    ops0.append(["add", FILE_ID, parent, name, "file", case["base"], False])
+    ops0.append(["add", EXTRA_ID, tm.ROOT_ID, "zextra", "file", "x\n", False])
+
+    def side(text):
+        return ([["delete", FILE_ID]] if text is None
+                else [["modify", FILE_ID, text]])
+
+    def rev(i, rid, parents, ops):
+        return {"id": rid, "parents": parents, "ghosts": [], "ops": ops,
+                "msg": rid, "ts": bz.T0 + 100 * i, "tz": 0,
+                "committer": bz.COMMITTER, "props": {}}
+    spec = {"revs": [rev(0, "r0", [], ops0), rev(1, "o", ["r0"],
+                                                 side(case["other"])),
+                     rev(2, "t", ["r0"], side(case["this"]))], "tags": {}}
+    d = env.newdir()
+    wt, models, idmap = history.build_wt(spec, os.path.join(d, "t"),
+                                         format="2a")
+    root = wt.basedir
+    path = tm.path_of(models["r0"], FILE_ID)
+    with wt.lock_write():
+        merger = _merge.Merger.from_revision_ids(wt, other=idmap["o"])
+        merger.merge_type = merge_type(case["mtype"])
+        merger.do_merge()
+    wt = bz.open_tree(root)
+    confl = conflict_view(wt)
+    got = fs_files(root)
+    detail = {"case": case, "conflicts": confl, "fs": got}
+    # no text merge took place: no text conflict may be recorded
+    check(not any(c[0] == "text conflict" for c in confl),
+          "C19/text-conflict-without-text-merge", detail)
+    if [c[:2] for c in confl] != [["contents conflict", path]]:
+        # the property does not say which conflict this input produces
+        return trivial()
+    action = case["resolve"]
+    _conflicts.resolve(wt, paths=None if case["resolve_all"] else [path],
+                       action=action)
+    wt = bz.open_tree(root)
+    after = fs_files(root)
+    want = case["this"] if action == "take_this" else case["other"]
+    d2 = {"case": case, "fs": after, "conflicts": conflict_view(wt),
+          "before": got}
+    both = case["this"] is not None and case["other"] is not None
+    cls = ("C19/contents-both-sides-present-take_this-" if both and
+           action == "take_this" else "C19/contents-%s-" % action)
+    check(after.get(path) == want, cls + "leaves-wrong-content", d2)
+    check(not any((path + "." + x) in after for x in ("BASE", "THIS",
+                                                     "OTHER")),
+          cls + "keeps-helper-files", d2)
+    check(conflict_view(wt) == [], cls + "keeps-conflict-record", d2)
+    return ok("contents/%s/%s/%s" % (
+        "binary" if both else "this-deleted" if case["this"] is None
+        else "other-deleted", action, case["mtype"]))
+
+
+@st.composite
+def gen_contents(draw):
+    line = st.sampled_from(NORMAL)
+    shape = draw(st.sampled_from(["binary", "this-deleted", "other-deleted"]))
+    texts = draw(st.lists(st.lists(line, min_size=1, max_size=4).map("".join),
+                          min_size=3, max_size=3, unique=True))
+    if shape == "binary":
+        texts = [t[:1] + "\0" + t[1:] for t in texts]
+    case = {"base": texts[0], "this": texts[1], "other": texts[2],
+            "mtype": draw(st.sampled_from(["merge3", "merge3", "weave"])),
+            "place": {"dir": draw(st.sampled_from([None, None, "sub"])),
+                      "name": draw(st.sampled_from(NAMES))},
+            "resolve": draw(st.sampled_from(["take_this", "take_other"])),
+            "resolve_all": draw(st.booleans())}
+    if shape == "this-deleted":
+        case["this"] = None
+    elif shape == "other-deleted":
+        case["other"] = None
     return case
 
 
@@ -446,5 +610,7 @@ def kinds(tier):
              examples={"quick": 240, "thorough": 8000}),
         Kind("sentinel", run, strategy=gen_case(("merge3",), sentinel=True),
              examples={"quick": 80, "thorough": 800}),
+        Kind("contents-conflicts", run_contents, strategy=gen_contents(),
+             examples={"quick": 120, "thorough": 2000}),
     ]
     return ks
